@@ -1,9 +1,214 @@
-/- Driver operations for C02 (stub: to be filled by the property's model). -/
+/-
+Driver operations for C02 (Distributed Shampoo update = documented blocked-Shampoo math): `Model/DShampoo.lean`
+executed on the implementation's own state, one parameter and one `update` call at a time (factored comparison).
+
+* `step` (binary64): the statistics half (`specStats` and `lowStats`) and the update half (`specPrecondGrad` /
+  `lowPrecondGrad`, `specTransform` / `lowTransform`) of one call, from the stored statistics, the preconditioners
+  the update is computed with, the first-order state, the gradient and the parameter. Tensors cross as float32 bit
+  patterns (widened exactly), configuration scalars as binary64 bit patterns. Policy TOL.
+* `stats` (exact rationals with a "representable in float32" flag on every intermediate): the statistics half
+  only. On flagged entries the float32 implementation performs no rounding at all — policy EXACT-DYADIC.
+* `geom`: transformed shape, block count, preconditioned axes, exponent, slot lists, skip predicate (EXACT).
+Mathlib-free.
+-/
 import PrecondVerif.Kit.Proto
+import PrecondVerif.Model.DShampoo
 
 namespace PrecondVerif.Drv.C02
-open Lean PrecondVerif.Proto
+open Lean PrecondVerif.Proto PrecondVerif.Shapes PrecondVerif.Graft PrecondVerif.DShampoo
 
-def ops : List Op := []
+/-! ### exact rationals flagged "every intermediate so far is a float32 value" -/
+
+def f32ToRat (bits : Nat) : R Rat :=
+  let neg : Bool := bits / 2 ^ 31 % 2 == 1
+  let e : Nat := bits / 2 ^ 23 % 256
+  let m : Nat := bits % 2 ^ 23
+  if e = 255 then .error "non-finite float32 in input" else
+  let mant : Nat := if e = 0 then m else m + 2 ^ 23
+  let ex : Int := if e = 0 then -149 else (e : Int) - 150
+  let mag : Rat := (mant : Rat) * (2 : Rat) ^ ex
+  .ok (if neg then -mag else mag)
+
+/-- strip factors of two -/
+def oddPart : Nat → Nat → Nat
+  | 0, n => n
+  | fuel + 1, n => if n != 0 && n % 2 == 0 then oddPart fuel (n / 2) else n
+
+/-- `q` is exactly a float32 value of moderate exponent (24-bit significand, |exponent| ≤ 100) -/
+def isF32 (q : Rat) : Bool :=
+  if q = 0 then true else
+  let n := q.num.natAbs
+  let d := q.den
+  let lo : Rat := (2 : Rat) ^ (-100 : Int)
+  let hi : Rat := (2 : Rat) ^ (100 : Int)
+  let a : Rat := if q < 0 then -q else q
+  oddPart 400 d == 1 && oddPart 400 n < 2 ^ 24 && decide (lo ≤ a) && decide (a ≤ hi)
+
+structure TQ where
+  v : Rat
+  ok : Bool
+
+namespace TQ
+def mk' (v : Rat) (ok : Bool) : TQ := ⟨v, ok && isF32 v⟩
+instance : Add TQ := ⟨fun a b => mk' (a.v + b.v) (a.ok && b.ok)⟩
+instance : Sub TQ := ⟨fun a b => mk' (a.v - b.v) (a.ok && b.ok)⟩
+instance : Mul TQ := ⟨fun a b => mk' (a.v * b.v) (a.ok && b.ok)⟩
+instance : BEq TQ := ⟨fun a b => a.v == b.v⟩
+instance : OfNat TQ 0 := ⟨⟨0, true⟩⟩
+instance : OfNat TQ 1 := ⟨⟨1, true⟩⟩
+instance : Inhabited TQ := ⟨⟨0, true⟩⟩
+end TQ
+
+/-! ### decoding -/
+
+def ptypeOfString : String → R PType
+  | "ALL" => pure .all
+  | "INPUT" => pure .input
+  | "OUTPUT" => pure .output
+  | s => throw s!"unknown preconditioner type {s}"
+
+def graftOfString : String → R GraftType
+  | "NONE" => pure .none
+  | "SGD" => pure .sgd
+  | "ADAGRAD" => pure .adagrad
+  | "RMSPROP" => pure .rmsprop
+  | "RMSPROP_NORMALIZED" => pure .rmspropNormalized
+  | "SQRT_N" => pure .sqrtN
+  | "ADAGRAD_NORMALIZED" => pure .adagradNormalized
+  | s => throw s!"unknown graft type {s}"
+
+def getGeom (j : Json) : R Geom := do
+  pure { shape := ← getNats j "shape", block := ← getNat j "block", mergeBlock := ← getNat j "merge_block",
+         bestEffort := ← getBool j "best_effort", ptype := ← ptypeOfString (← getStr j "ptype") }
+
+def f32Datum (j : Json) : R Float := do pure (← asFloat32 j).toFloat
+
+def tqDatum (j : Json) : R TQ := do
+  let v ← f32ToRat (← parseHex (← asStr j))
+  pure ⟨v, true⟩
+
+/-- a flat row-major `d × d` matrix as an index function over an array -/
+def mxOfArray {α : Type} (zero : α) (d : Nat) (a : Array α) : Mx α := fun i j =>
+  if i < d ∧ j < d then a.getD (i * d + j) zero else zero
+
+def getMats {α : Type} (zero : α) (datum : Json → R α) (j : Json) (k : String) : R (List (Mx α)) := do
+  let ms ← asList (← field j k)
+  ms.mapM fun m => do
+    let l ← asListOf datum m
+    let d := Nat.sqrt l.length
+    if d * d ≠ l.length then throw s!"{k}: a matrix is not square" else
+    pure (mxOfArray zero d l.toArray)
+
+/-- dimension of slot `s`: the extent of the block along its preconditioned axis -/
+def slotDim {α : Type} (blocks : List (Tensor α)) (pdims : List Nat) (s : Nat) : Nat :=
+  match blocks[s / pdims.length]? with
+  | some b => b.shape.getD (pdims.getD (s % pdims.length) 0) 0
+  | none => 0
+
+def mxFlat {α : Type} (d : Nat) (m : Mx α) : List α :=
+  (List.range d).flatMap fun i => (List.range d).map fun j => m i j
+
+def matsJson {α : Type} (out : α → Json) (blocks : List (Tensor α)) (pdims : List Nat) (ms : List (Mx α)) : Json :=
+  listToJson (fun (p : Mx α × Nat) => listToJson out (mxFlat (slotDim blocks pdims p.2) p.1)) ms.zipIdx
+
+def optNatsJson (l : List (Option Nat)) : Json :=
+  Json.arr (l.map fun o => match o with | some n => toJson n | none => Json.null).toArray
+
+/-! ### ops -/
+
+def geomOp (j : Json) : R Json := do
+  let G ← getGeom j
+  let override ← getNat j "override"
+  let nb := (G.blocks (α := Float) []).length
+  pure (obj [
+    ("tshape", natsToJson G.tshape), ("rank", toJson G.rank), ("k", toJson G.k), ("pdims", natsToJson G.pdims),
+    ("nblocks", toJson nb), ("exponent", toJson (G.exponent override)),
+    ("skip", Json.bool (dsSkip (← getNat j "rank_lt") (← getNat j "dim_gt") G.shape)),
+    ("block_shapes", listToJson (fun (t : Tensor Float) => natsToJson t.shape) (G.blocks (α := Float) [])),
+    ("slots_spec", listToJson optNatsJson ((List.range nb).map (specSlots G.ptype G.rank))),
+    ("slots_low", listToJson optNatsJson ((List.range nb).map (lowSlots G.ptype G.rank)))])
+
+/-- the statistics half at exact rationals -/
+def statsExactOp (j : Json) : R Json := do
+  let G ← getGeom j
+  let β2 : TQ := ⟨← asRat (← field j "beta2"), true⟩
+  let g ← asListOf tqDatum (← field j "g")
+  let stats ← getMats (0 : TQ) tqDatum j "stats"
+  let si ← getNat j "si"
+  let step ← getNat j "step"
+  let bl := G.blocks g
+  let sp := specStats G (statW1 β2) (statW2 β2) si step stats g
+  let lo := lowStats G (statW1 β2) (statW2 β2) si step stats g
+  let vj := matsJson (fun (x : TQ) => ratToJson x.v) bl G.pdims
+  let oj := matsJson (fun (x : TQ) => Json.bool x.ok) bl G.pdims
+  pure (obj [("stats_spec", vj sp), ("stats_low", vj lo), ("ok", oj sp), ("n_spec", toJson sp.length),
+             ("n_low", toJson lo.length)])
+
+def optVec (l : Option (List Float)) : Json :=
+  match l with
+  | some v => listToJson floatToJson v
+  | none => Json.null
+
+def stepOp (j : Json) : R Json := do
+  let G ← getGeom j
+  let sc := fun (k : String) => do asFloat (← field j k)
+  let clip : Option Float ← match j.getObjVal? "clip" with
+    | .ok .null => pure none
+    | .ok v => do pure (some (← asFloat v))
+    | .error _ => pure none
+  let cfg : DSConfig Float := {
+    graftType := ← graftOfString (← getStr j "graft")
+    beta2 := ← sc "beta2"
+    diagEps := ← sc "diag_eps"
+    eps := ← sc "eps"
+    lr := ← sc "lr"
+    decoupledLr := ← getBool j "dlr"
+    clip := clip
+    start := ← getNat j "start" }
+  let h : Hyper Float := {
+    g := cfg
+    beta1 := ← sc "beta1"
+    wd := ← sc "wd"
+    decoupledWd := ← getBool j "dwd"
+    nesterov := ← getBool j "nesterov"
+    movingAvg := ← getBool j "mavg" }
+  let step ← getNat j "step"
+  let si ← getNat j "si"
+  let skip := dsSkip (← getNat j "rank_lt") (← getNat j "dim_gt") G.shape
+  let g ← asListOf f32Datum (← field j "g")
+  let param ← asListOf f32Datum (← field j "param")
+  let stats ← getMats (0 : Float) f32Datum j "stats"
+  let preconds ← getMats (0 : Float) f32Datum j "preconds"
+  let st : PState Float := {
+    diag := ← asListOf f32Datum (← field j "diag")
+    dmom := ← asListOf f32Datum (← field j "dmom")
+    mom := ← asListOf f32Datum (← field j "mom") }
+  let bl := G.blocks g
+  let w1 := statW1 cfg.beta2
+  let w2 := statW2 cfg.beta2
+  let (sp, lo) := if skip then (stats, stats) else
+    (specStats G w1 w2 si step stats g, lowStats G w1 w2 si step stats g)
+  let pgS : Option (List Float) := if skip then some g else specPrecondGrad G preconds g
+  let pgL : Option (List Float) := if skip then some g else lowPrecondGrad G preconds g
+  let tr := fun (f : (Float → Float) → (Nat → Float) → Hyper Float → Nat → Bool → List Float → List Float →
+      PState Float → List Float → TOut Float) (pg : Option (List Float)) =>
+    pg.map fun p => f Float.sqrt Float.ofNat h step skip g param st p
+  let oS := tr specTransform pgS
+  let oL := tr lowTransform pgL
+  let vec := fun (l : List Float) => listToJson floatToJson l
+  let outJ := fun (o : Option (TOut Float)) => match o with
+    | some o => obj [("upd", vec o.upd), ("diag", vec o.st.diag), ("dmom", vec o.st.dmom), ("mom", vec o.st.mom),
+                     ("shampoo", vec o.shampoo)]
+    | none => Json.null
+  pure (obj [
+    ("skip", Json.bool skip),
+    ("stats_spec", matsJson floatToJson bl G.pdims sp), ("stats_low", matsJson floatToJson bl G.pdims lo),
+    ("pg_spec", optVec pgS), ("pg_low", optVec pgL), ("spec", outJ oS), ("low", outJ oL)])
+
+def ops : List Op := [
+  ("geom", geomOp),
+  ("stats", statsExactOp),
+  ("step", stepOp)
+]
 
 end PrecondVerif.Drv.C02
